@@ -34,6 +34,13 @@ def _work(arg):
     obs = mod.obligations(tier)
     ob = obs[idx]
     findings = load_findings()
+    import signal
+
+    def _alarm(signum, frame):
+        from . import symx
+        raise symx.Budget('obligation wall-clock limit')
+    signal.signal(signal.SIGALRM, _alarm)
+    signal.alarm(int(getattr(ob, 'wall_s', 600) * 2 + 120))
     try:
         if ob.kind == 'symx':
             return core.discharge(ob, findings, prop, tier)
